@@ -410,6 +410,51 @@ fn determinism_recheck(ctx: &Arc<Ctx>, gen: Gen, seed: u64, samples: &BTreeMap<u
     (n, bad)
 }
 
+/// Run the repository's real generator binary (built by run.sh without the hook cfg, no seam, real
+/// file system, real RandomState) once; returns its stdout, or an error text.
+fn real_rerun(bin_dir: &Path, gen: Gen) -> Result<String, String> {
+    let name = match gen {
+        Gen::Layout => "generate_layout",
+        Gen::Likely => "generate_likelysubtags",
+    };
+    let exe = bin_dir.join(name);
+    if !exe.exists() {
+        return Err(format!("{} not built", exe.display()));
+    }
+    let out = std::process::Command::new(&exe)
+        .current_dir(REPO_CRATE)
+        .env_clear()
+        .output()
+        .map_err(|e| format!("cannot run {}: {}", exe.display(), e))?;
+    if !out.status.success() {
+        let err = String::from_utf8_lossy(&out.stderr);
+        return Ok(format!(
+            "\u{0}REAL-FAILURE status={:?} {}",
+            out.status.code(),
+            err.lines().next().unwrap_or("")
+        ));
+    }
+    Ok(String::from_utf8_lossy(&out.stdout).into_owned())
+}
+
+fn judge_real(gen: Gen, text: &str, comp: &BTreeMap<String, Val>) -> Vec<Violation> {
+    if let Some(f) = text.strip_prefix("\u{0}REAL-FAILURE ") {
+        return vec![Violation {
+            class: "R1".into(),
+            table: "-".into(),
+            signature: format!("R1:{}:real-process-failed", gen.name()),
+            detail: format!("the real {} process did not run to completion: {}", gen.program(), f),
+        }];
+    }
+    oracle::check_output(gen.name(), text, comp)
+        .into_iter()
+        .map(|mut v| {
+            v.detail = format!("real (unsimulated) re-run of {}: {}", gen.program(), v.detail);
+            v
+        })
+        .collect()
+}
+
 #[derive(Default)]
 struct Known {
     known: Vec<(String, String)>, // (signature, what)
@@ -576,6 +621,35 @@ fn cmd_check(a: &Args) -> i32 {
     let lay = run_batch(&ctx, Gen::Layout, seed, layout_runs, threads, stride_layout);
     let lik = run_batch(&ctx, Gen::Likely, seed, likely_runs, threads.min(likely_runs.max(1)), 1);
     let sim_wall = t_sim.elapsed().as_secs_f64();
+    // ---- fidelity cross-check: the real binaries, run for real (no seam), must print what the
+    // simulated programs printed and what the tables hold
+    let real_dir = a.opts.get("real-bins").map(PathBuf::from);
+    let real_n = opt_u64(a, "real-runs", if tier == "quick" { 2 } else { 12 });
+    let mut real_done = 0u64;
+    let mut real_viol: Vec<(Gen, Violation, String)> = vec![];
+    let mut real_note = String::from("not requested");
+    if let Some(dir) = &real_dir {
+        real_note = String::from("ok");
+        'outer: for gen in [Gen::Layout, Gen::Likely] {
+            for _ in 0..real_n {
+                match real_rerun(dir, gen) {
+                    Ok(text) => {
+                        real_done += 1;
+                        let vs = judge_real(gen, &text, &ctx.comp);
+                        if let Some(v) = vs.into_iter().next() {
+                            real_viol.push((gen, v, text));
+                            continue 'outer;
+                        }
+                    }
+                    Err(e) => {
+                        real_note = format!("skipped: {}", e);
+                        break 'outer;
+                    }
+                }
+            }
+        }
+    }
+    println!("real re-runs of the generator binaries (fidelity cross-check): {} done, {} mismatching ({})", real_done, real_viol.len(), real_note);
     let fault_runs = opt_u64(a, "fault-runs", if tier == "quick" { 6_000 } else { 300_000 });
     let hf_lay = run_fault_batch(&ctx, Gen::Layout, seed, fault_runs, threads);
     let hf_lik = run_fault_batch(&ctx, Gen::Likely, seed, (fault_runs / 100).max(12), threads);
@@ -684,6 +758,19 @@ fn cmd_check(a: &Args) -> i32 {
             }
         }
     }
+    for (gen, v, _text) in &real_viol {
+        // the simulated search normally reports the same defect with an exact replay; a real-run
+        // mismatch that simulation did not see is reported on its own (replay = re-run the binary)
+        if reported.iter().any(|(rv, _)| sim::violation_class(rv) == sim::violation_class(v)) {
+            continue;
+        }
+        if let Some((_s, what)) = is_known(v) {
+            known_lines.push(format!("KNOWN-FINDING: property={} {} ({})", PROPERTY, v.signature, what));
+            continue;
+        }
+        let p = write_replay(&replay_dir, &ctx, "real", Some(*gen), seed, None, &tier, v, &[], json!({"real_bins": real_dir.as_ref().map(|d| d.display().to_string())}));
+        reported.push((v.clone(), p));
+    }
     // verify each replay file in a fresh process
     let mut replay_verified = 0;
     for (_v, p) in &reported {
@@ -790,6 +877,12 @@ fn cmd_check(a: &Args) -> i32 {
                 "cldr_layout_locales": rf.locales.len(),
                 "static_violations": st.violations.len(),
                 "reference_packer": if oracle::init_packer(&ctx.image).fallback { "library conversions (own little-endian packer disagrees with the library)" } else { "own little-endian ASCII packer (agrees with the library's conversions on every CLDR subtag)" },
+            },
+            "real_process_reruns": {
+                "note": "fidelity cross-check of the simulator: the repository's generator binaries built without the hook and run as real processes (real file system order, real RandomState); their output must equal the compiled tables like every simulated run's",
+                "runs": real_done,
+                "mismatching": real_viol.len(),
+                "status": real_note,
             },
             "determinism": {
                 "runs_reexecuted_on_another_worker": dn_l + dn_k,
@@ -946,6 +1039,24 @@ fn cmd_replay(a: &Args) -> i32 {
     };
     let found: Vec<Violation> = match j["kind"].as_str() {
         Some("static") => oracle::static_checks(&comp, &rf).violations,
+        Some("real") => {
+            let gen = Gen::parse(j["generator"].as_str().unwrap_or("")).unwrap_or_else(|| harness_error("replay file: bad generator"));
+            let dir = PathBuf::from(j["minimisation"]["real_bins"].as_str().unwrap_or("/verif/gensim/target/realbins/debug"));
+            // a real process is not under the simulator's control: try a number of times
+            let mut found = vec![];
+            for _ in 0..32 {
+                match real_rerun(&dir, gen) {
+                    Ok(text) => {
+                        found = judge_real(gen, &text, &comp);
+                        if !found.is_empty() {
+                            break;
+                        }
+                    }
+                    Err(e) => harness_error(&format!("replay: {}", e)),
+                }
+            }
+            found
+        }
         Some("run") => {
             let gen = Gen::parse(j["generator"].as_str().unwrap_or("")).unwrap_or_else(|| harness_error("replay file: bad generator"));
             let sched = schedule::from_json(&j["schedule"], &image).unwrap_or_else(|e| harness_error(&format!("replay file: {}", e)));
